@@ -11,3 +11,95 @@ Theorem C18_label_injective :
     l <> [] -> Forall (free sep) l -> split sep (join sep l) = l.
 Proof. exact Emit.split_join. Qed.
 Print Assumptions C18_label_injective.
+
+From YG Require Import LRBase LR0Build Pipeline Draw.
+Close Scope Z_scope.
+Open Scope nat_scope.
+
+(* the model of DrawGrammar on the matrix generated from an action function: an edge is drawn exactly for every shift/goto cell, with its symbol and target state *)
+Theorem C18_diagram_edges :
+  forall (aut : automaton) (nsyms : nat) (t : table),
+         (forall q a q' : nat, t q a = Shift q' -> q' < length aut) ->
+         (forall q a : nat, t q a <> Reduce 0) ->
+         forall q a q' : nat,
+         In (q, a, q') (draw_edges aut (dense_of (length aut) nsyms t)) <->
+         q < length aut /\ a < nsyms /\ t q a = Shift q'.
+Proof. exact Draw.draw_edges_spec. Qed.
+Print Assumptions C18_diagram_edges.
+
+From YG Require Import LRBase LR0Build Pipeline Draw.
+Close Scope Z_scope.
+Open Scope nat_scope.
+
+(* one node per state, numbered as in the table, showing that state's items; a reduce line exactly for every reduction cell under its lookahead symbol; the accepting mark exactly where the table accepts *)
+Theorem C18_diagram_nodes :
+  forall (aut : automaton) (nsyms : nat) (t : table),
+         (forall q a q' : nat, t q a = Shift q' -> q' < length aut) ->
+         (forall q a : nat, t q a <> Reduce 0) ->
+         forall q : nat,
+         q < length aut ->
+         exists nd : gnode,
+           nth_error (draw_nodes aut (dense_of (length aut) nsyms t)) q = Some nd /\
+           gn_state nd = q /\
+           gn_items nd = items (nth q aut {| items := []; gotos := [] |}) /\
+           (forall a r : nat, In (a, r) (gn_look nd) <-> a < nsyms /\ t q a = Reduce r) /\
+           (gn_accept nd = true <-> (exists a : nat, a < nsyms /\ t q a = Accept)).
+Proof. exact Draw.draw_nodes_items. Qed.
+Print Assumptions C18_diagram_nodes.
+
+From YG Require Import LRBase LR0Build Pipeline Draw DrawPipeline.
+Close Scope Z_scope.
+Open Scope nat_scope.
+
+(* for the automaton and matrix of one generate_tables run, read the way every generated parser reads the matrix (dense_action): states, items, transitions, reductions with lookahead symbols and accepting state of the diagram are exactly those of the tables *)
+Theorem C18_diagram_pipeline :
+  forall gi : ginfo,
+         (forall r d : nat, nth_error (rhs_of (gi_rules gi) r) d <> Some 0) ->
+         lhs_of (gi_rules gi) 0 = 0 ->
+         (forall r d : nat, nth_error (rhs_of (gi_rules gi) r) d <> Some eof) ->
+         (exists S : nat, rhs_of (gi_rules gi) 0 = [S]) ->
+         forall t : tables,
+         generate_tables gi = inr t ->
+         let n := length (t_aut t) in
+         let tab := dense_action n (t_dense t) in
+         let nodes := draw_nodes (t_aut t) (t_dense t) in
+         let edges := draw_edges (t_aut t) (t_dense t) in
+         map gn_state nodes = seq 0 n /\
+         (forall q a q' : nat, In (q, a, q') edges <-> q < n /\ a < gi_nsyms gi /\ tab q a = Shift q') /\
+         (forall q : nat,
+          q < n ->
+          exists nd : gnode,
+            nth_error nodes q = Some nd /\
+            gn_state nd = q /\
+            gn_items nd = items (st (t_aut t) q) /\
+            (forall a r : nat, In (a, r) (gn_look nd) <-> a < gi_nsyms gi /\ tab q a = Reduce r) /\
+            (gn_accept nd = true <-> (exists a : nat, a < gi_nsyms gi /\ tab q a = Accept))).
+Proof. exact DrawPipeline.pipeline_diagram. Qed.
+Print Assumptions C18_diagram_pipeline.
+
+From YG Require Import LRBase LR0Build Pipeline Draw DrawPipeline.
+Close Scope Z_scope.
+Open Scope nat_scope.
+
+(* the listing (automaton with transitions, lookahead set of every reduction) covers the tables of the same run: every shift/goto is a listed transition, every reduction a complete item of its state under a symbol of its listed lookahead set, accept only with the completed start item on the end marker *)
+Theorem C18_listing_covers_tables :
+  forall gi : ginfo,
+         (forall r d : nat, nth_error (rhs_of (gi_rules gi) r) d <> Some 0) ->
+         lhs_of (gi_rules gi) 0 = 0 ->
+         (forall r d : nat, nth_error (rhs_of (gi_rules gi) r) d <> Some eof) ->
+         (exists S : nat, rhs_of (gi_rules gi) 0 = [S]) ->
+         forall t : tables,
+         generate_tables gi = inr t ->
+         let n := length (t_aut t) in
+         let tab := dense_action n (t_dense t) in
+         forall q a : nat,
+         q < n ->
+         a < gi_nsyms gi ->
+         (forall q' : nat, tab q a = Shift q' -> goto (t_aut t) q a = Some q') /\
+         (forall r : nat,
+          tab q a = Reduce r ->
+          r <> 0 /\
+          In (r, length (rhs_of (gi_rules gi) r)) (items (st (t_aut t) q)) /\ In a (la_lookup (t_la t) q r)) /\
+         (tab q a = Accept -> In (0, 1) (items (st (t_aut t) q)) /\ a = eof).
+Proof. exact DrawPipeline.pipeline_table_within_listing. Qed.
+Print Assumptions C18_listing_covers_tables.
